@@ -106,11 +106,15 @@ def gen_spec(rng, slot_index, swarm):
     # history alike; kept, but rare, so that most exports produce documents
     n = rng.choice([1, 2, 2, 3, 3, 4, 4, 6, 6, 9, 12, 12])
     if swarm["ranges"] == "far":
-        base_year = [1985, 2003, 2031, 1962][slot_index % 4]
+        base_year = [[1985, 1984], [2003, 2004], [2031, 2032], [1962, 1964]][slot_index % 4][rng.randrange(2)]
     else:
         base_year = 2010
     base = datetime.datetime(base_year, rng.randrange(1, 13), rng.randrange(1, 28))
-    span_days = rng.choice([0.5, 3, 3, 40, 40, 40, 400, 400, 400, 4000, 4000])
+    span_days = rng.choice([0.5, 3, 3, 40, 40, 40, 400, 400, 400, 4000, 4000, 12, 20])
+    if rng.random() < 0.15:
+        # around the end of February (leap and common years differ there)
+        base = datetime.datetime(base_year, 2, rng.randrange(14, 27))
+        span_days = rng.choice([8, 12, 20])
     clustered = rng.random() < 0.4
     centres = [rng.random() for _ in range(rng.choice([1, 2, 3]))]
     pool = swarm.get("pool")
@@ -173,8 +177,8 @@ def gen_spec(rng, slot_index, swarm):
         opts["initialHeight"] = rng.choice([112, 250, 400, 700])
     if rng.random() < 0.25:
         opts["margin"] = {"left": rng.choice([0, 20, 40]), "right": 20, "top": rng.choice([5, 20]), "bottom": 30}
-    if rng.random() < 0.2:
-        opts["layerGap"] = rng.choice([30, 40, 100])
+    if rng.random() < 0.25:
+        opts["layerGap"] = rng.choice([30, 40, 50, 55, 70, 100])
     if rng.random() < 0.15:
         opts["dotRadius"] = rng.choice([2, 5])
     if rng.random() < 0.1:
@@ -216,7 +220,8 @@ def gen_spec(rng, slot_index, swarm):
     if rng.random() < 0.15:
         opts["textFn"] = rng.choice([{"$fn": "upper"}, {"$fn": "plain"}, None])
     if rng.random() < 0.2:
-        opts["labelPadding"] = {"left": 0, "right": rng.choice([0, 4]), "top": 0, "bottom": rng.choice([0, 3])}
+        opts["labelPadding"] = {"left": rng.choice([0, 2, 5]), "right": rng.choice([0, 2, 4, 5]),
+                                "top": rng.choice([0, 3, 5, 8, 10]), "bottom": rng.choice([0, 2, 3, 5, 7])}
     if rng.random() < 0.3:
         lat = {}
         if rng.random() < 0.5:
